@@ -5,6 +5,7 @@ UB-free; the Lean reference semantics classifies UB at run time so that it can b
 """
 from __future__ import annotations
 
+import itertools
 import math
 import struct
 from dataclasses import dataclass, field
@@ -490,14 +491,62 @@ class ProgGen:
         in2 = ind + "  "
         x = iv
         leak_iv = r.random() < 0.1
+        # Where the chain lives and where its other operands are defined.  The pass may fold a link into the
+        # loop range only if the other operand is defined OUTSIDE the loop: besides those, operands defined
+        # directly in the loop body (loop-carried block argument, operation result) and — when the chain sits in
+        # a region nested in the body (scf.if branch, inner scf.for) — in that nested region (operation result,
+        # block arguments of the inner loop) are drawn.
+        place = r.choice(["if_then", "if_else", "for"]) if r.random() < 0.4 else None
+        body_vals = list(accs)
+        if r.random() < 0.5:
+            bl = self.fresh()
+            lines.append(f"{in2}{bl} = arith.addi {r.choice(accs + consts)}, {self.idx_const(lines, in2, [1, 2, 3])} : index")
+            body_vals.append(bl)
+        nested_vals: list[str] = []
+        inc = in2
+        carrier = None
+        if place is not None:
+            carrier = self.fresh()
+            inc = in2 + "  "
+            if place == "for":
+                k2, acc2 = self.fresh("i"), self.fresh("acc")
+                l2, u2, s2 = self.idx_const(lines, in2, [0, 1]), self.idx_const(lines, in2, [1, 2, 3]), self.idx_const(lines, in2, [1, 2])
+                i2 = r.choice(body_vals + consts)
+                lines.append(f"{in2}{carrier} = scf.for {k2} = {l2} to {u2} step {s2} iter_args({acc2} = {i2}) -> (index) {{")
+                nested_vals += [k2, acc2, acc2]
+            else:
+                cond = self.pick(p2, "i1", lines, in2)
+                other = r.choice(body_vals + consts)
+                lines.append(f"{in2}{carrier} = scf.if {cond} -> (index) {{")
+                if place == "if_else":
+                    lines.append(f"{inc}scf.yield {other} : index")
+                    lines.append(f"{in2}}} else {{")
+            if r.random() < 0.6:
+                nl = self.fresh()
+                lines.append(f"{inc}{nl} = arith.addi {r.choice(consts + body_vals)}, {self.idx_const(lines, inc, [1, 2, 3])} : index")
+                nested_vals.append(nl)
         for cst in consts:
             v = self.fresh()
             op = r.choice(["addi", "muli", "muli", "subi", "subi"])
+            q = r.random()
+            if q < 0.25 and nested_vals:
+                cst = r.choice(nested_vals)
+            elif q < 0.4 and body_vals:
+                cst = r.choice(body_vals)
             a, b = (x, cst) if r.random() < 0.5 else (cst, x)
-            lines.append(f"{in2}{v} = arith.{op} {a}, {b} : index")
-            if x != iv and r.random() < 0.1:
+            lines.append(f"{inc}{v} = arith.{op} {a}, {b} : index")
+            if x != iv and place is None and r.random() < 0.1:
                 p2.setdefault("index", []).append(x)     # a second use stops the folding chain there
             x = v
+        if place is not None:
+            if r.random() < 0.5:
+                self.ext_call("index", x, lines, inc)
+            lines.append(f"{inc}scf.yield {x} : index")
+            if place == "if_then":
+                lines.append(f"{in2}}} else {{")
+                lines.append(f"{inc}scf.yield {other} : index")
+            lines.append(f"{in2}}}")
+            x = carrier
         if leak_iv:
             p2.setdefault("index", []).append(iv)
             if r.random() < 0.5:
@@ -599,13 +648,32 @@ class ProgGen:
             ilb = self.idx_const(lines, ind, [0, 0, 1, 2, -1])
             iub = self.idx_const(lines, ind, [0, 3, 4, 7, 8, -2])
             ist = self.idx_const(lines, ind, [1, 1, 2, 3])
-        ntys = r.choice([0, 0, 1, 2])
-        tys = [r.choice(["index", "i32"]) for _ in range(ntys)]
+        ntys = r.choice([0, 0, 1, 2, 2, 3])
+        t0 = r.choice(["index", "i32"])
+        tys = [t0 if r.random() < 0.8 else r.choice(["index", "i32"]) for _ in range(ntys)]
         o, i = self.fresh("i"), self.fresh("i")
-        ores, oaccs = self.loop_header(pool, lines, ind, o, olb, oub, ost, tys)
+        # distinct initial values where possible (a lost exchange of equal values cannot be seen)
+        oinits = []
+        for j, t in enumerate(tys):
+            if j == 0 or r.random() < 0.3:
+                oinits.append(self.pick(pool, t, lines, ind))
+            else:
+                v = self.fresh("c")
+                lines.append(f"{ind}{v} = arith.constant {[3, 11, -5, 20][j]} : {t}")
+                oinits.append(v)
+        ores, oaccs = self.loop_header(pool, lines, ind, o, olb, oub, ost, tys, inits=oinits)
         same = len(set(tys)) <= 1
-        forward = r.random() < 0.85 or not same
-        iinits = list(oaccs) if forward else list(reversed(oaccs))
+        # the inner loop is initialised with the outer block arguments position by position (what the pass may
+        # flatten), in another order, or with one of them twice; only a same-typed exchange is well-typed
+        q = r.random()
+        if q < 0.65 or not same or ntys < 2:
+            iinits = list(oaccs)
+        elif q < 0.92:
+            iinits = list(oaccs)
+            while iinits == list(oaccs):
+                r.shuffle(iinits)
+        else:
+            iinits = [r.choice(oaccs) for _ in oaccs]
         ires, iaccs = self.loop_header(pool, lines, in2, i, ilb, iub, ist, tys, inits=iinits)
         p3 = self.body_pool(pool)
         if used:
@@ -623,15 +691,30 @@ class ProgGen:
         for _ in range(r.randint(0, 2)):
             self.stmt(p3, lines, in3, depth + 2)
         if tys:
-            ys = [self.pick(p3, t, lines, in3) if r.random() < 0.6 else a for a, t in zip(iaccs, tys)]
+            if r.random() < 0.5:
+                # every carried value gets its own treatment, so that exchanged slots give different results
+                ys = []
+                for j, (a, t) in enumerate(zip(iaccs, tys)):
+                    cv, y = self.fresh("c"), self.fresh()
+                    lines.append(f"{in3}{cv} = arith.constant {[1, 2, 7][j]} : {t}")
+                    lines.append(f"{in3}{y} = arith.{['addi', 'muli', 'subi'][j]} {cv}, {a} : {t}")
+                    ys.append(y)
+            else:
+                ys = [self.pick(p3, t, lines, in3) if r.random() < 0.6 else a for a, t in zip(iaccs, tys)]
             lines.append(f"{in3}scf.yield " + ", ".join(ys) + " : " + ", ".join(tys))
         lines.append(in2 + "}")
         if tys:
-            ys = list(ires) if r.random() < 0.9 or not same else list(reversed(ires))
+            ys = list(ires)
+            if same and ntys >= 2 and r.random() < 0.15:
+                r.shuffle(ys)
             lines.append(f"{in2}scf.yield " + ", ".join(ys) + " : " + ", ".join(tys))
         lines.append(ind + "}")
         for rr, t in zip(ores, tys):
             pool.setdefault(t, []).append(rr)
+            # the final carried values are observed (external call, and returned at top level)
+            self.ext_call(t, rr, lines, ind)
+            if depth == 0:
+                self.force_returns.append((rr, t))
 
     def shape_while(self, pool: dict[str, list[str]], lines: list[str], ind: str, depth: int) -> None:
         """counting `scf.while` (terminates by construction: positive constant increment, small bound)"""
@@ -1511,3 +1594,158 @@ def symref_depth_program(chain: tuple[str, ...], acc: str, aft: str, decl: str, 
     return {"text": text, "arg_types": ["i32", "i32", "i1"], "ret_types": ["i32"],
             "vecs": [[7, 11, -1], [7, 11, 0], [-3, 5, -1]],
             "sym_depth": len(chain) + (1 if decl == "inner" else 0), "sym_span": len(chain), "sym_declared": decl != "undeclared"}
+
+
+# ------------------------------------------------------------------------------------------------
+# C16: enumerated families for the *applicability decisions* of the loop passes
+# ------------------------------------------------------------------------------------------------
+
+FOLD_CARRIERS = ("if_then", "if_else", "for")
+
+
+def fold_scope_origins(chain: tuple[str, ...]) -> list[tuple[str, int]]:
+    """where the other operand of the user of the induction variable may be defined: outside the loop (constant,
+    function argument, operation result), directly in the loop body (operation result, loop-carried block argument)
+    or at level l = 1…len(chain) of the regions nested in the body (operation result; block arguments of a `for`)"""
+    out = [("const", 0), ("arg", 0), ("outer_op", 0), ("body_op", 0), ("acc", 0)]
+    for lvl, w in enumerate(chain, 1):
+        out.append(("op", lvl))
+        if w == "for":
+            out += [("acc", lvl), ("iv", lvl)]
+    return out
+
+
+def fold_scope_cases(max_d: int, full_d: int, deep_all: bool = True) -> list[tuple[tuple[str, ...], tuple[str, int], str, bool, tuple[str, int] | None]]:
+    """(carrier chain, origin of the other operand, addi/muli, induction variable on the left?, origin of the other
+    operand of a second link or None).  Chains of length ≤ full_d get every combination, longer ones addi only with
+    alternating sides (and, unless deep_all, only the origins inside the nested regions and no second link: the
+    others do not depend on the depth and are covered by the shorter chains)."""
+    chains: list[tuple[str, ...]] = [()]
+    for d in range(1, max_d + 1):
+        chains += list(itertools.product(FOLD_CARRIERS, repeat=d))
+    cases = []
+    n = 0
+    for ch in chains:
+        origins = fold_scope_origins(ch)
+        for org in origins:
+            if len(ch) <= full_d:
+                for op in ("addi", "muli"):
+                    for left in (True, False):
+                        cases.append((ch, org, op, left, None))
+            elif deep_all or org[1] >= 1:
+                n += 1
+                cases.append((ch, org, "addi", n % 2 == 0, None))
+        # a second link after a foldable first one: the pass folds to a fixed point
+        for org2 in (origins if deep_all or len(ch) <= full_d else []):
+            n += 1
+            cases.append((ch, ("const", 0), "addi", n % 2 == 0, org2))
+    return cases
+
+
+def fold_scope_program(chain: tuple[str, ...], origin: tuple[str, int], op: str, left: bool,
+                       origin2: tuple[str, int] | None = None, ub: int = 3) -> dict[str, Any]:
+    """`scf.for` whose induction variable has exactly one use, an arith.addi/muli located `len(chain)` region
+    levels below the loop body (carriers: scf.if then/else branch, inner scf.for), whose other operand is defined
+    at `origin`.  Folding the operation into the loop range is only sound when that operand is defined outside the
+    loop; everything computed reaches an external call and the result."""
+    L: list[str] = []
+    ind = "  "
+    L += [f"{ind}%c0 = arith.constant 0 : index", f"{ind}%c1 = arith.constant 1 : index", f"{ind}%c2 = arith.constant 2 : index",
+          f"{ind}%c3 = arith.constant 3 : index", f"{ind}%k5 = arith.constant 5 : index", f"{ind}%ub = arith.constant {ub} : index",
+          f"{ind}%oo = arith.addi %a, %c2 : index",
+          f"{ind}%r = scf.for %i = %c1 to %ub step %c1 iter_args(%acc0 = %a) -> (index) {{"]
+    ind += "  "
+    L.append(f"{ind}%n0 = arith.addi %acc0, %c2 : index")
+    close: list[tuple[str, str, int]] = []
+    for lvl, w in enumerate(chain, 1):
+        if w == "for":
+            L.append(f"{ind}%j{lvl} = scf.for %k{lvl} = %c1 to %c3 step %c1 iter_args(%acc{lvl} = %c2) -> (index) {{")
+        else:
+            L.append(f"{ind}%j{lvl} = scf.if %c -> (index) {{")
+            if w == "if_else":
+                L.append(f"{ind}  scf.yield %k5 : index")
+                L.append(f"{ind}}} else {{")
+        close.append((ind, w, lvl))
+        ind += "  "
+        L.append(f"{ind}%n{lvl} = arith.addi %a, %c3 : index")
+
+    def name(org: tuple[str, int]) -> str:
+        kind, lvl = org
+        return {"const": "%c2", "arg": "%a", "outer_op": "%oo", "body_op": "%n0"}.get(kind) or \
+            {"op": f"%n{lvl}", "acc": f"%acc{lvl}", "iv": f"%k{lvl}"}[kind]
+
+    x = name(origin)
+    a, b = ("%i", x) if left else (x, "%i")
+    L.append(f"{ind}%t = arith.{op} {a}, {b} : index")
+    last = "%t"
+    if origin2 is not None:
+        x2 = name(origin2)
+        a, b = (x2, "%t") if left else ("%t", x2)
+        L.append(f"{ind}%t2 = arith.addi {a}, {b} : index")
+        last = "%t2"
+    L.append(f"{ind}func.call @ext_index({last}) : (index) -> ()")
+    for ind0, w, lvl in reversed(close):
+        L.append(f"{ind0}  scf.yield {last} : index")
+        if w == "if_then":
+            L.append(f"{ind0}}} else {{")
+            L.append(f"{ind0}  scf.yield %k5 : index")
+        L.append(f"{ind0}}}")
+        last = f"%j{lvl}"
+        ind = ind0
+    L.append(f"{ind}func.call @ext_index({last}) : (index) -> ()")
+    L.append(f"{ind}%s = arith.addi %acc0, {last} : index")
+    L.append(f"{ind}scf.yield %s : index")
+    L.append("  }")
+    text = ("builtin.module {\nfunc.func @main(%a: index, %c: i1) -> (index) {\n" + "\n".join(L)
+            + "\n  func.return %r : index\n}\nfunc.func private @ext_index(index) -> ()\n}\n")
+    return {"text": text, "arg_types": ["index", "i1"], "ret_types": ["index"], "vecs": [[5, -1], [5, 0], [-2, -1]]}
+
+
+def nest_iter_cases(full: bool) -> list[tuple[tuple[int, ...], tuple[int, ...], int, int, int]]:
+    """(inner-loop initialisation as positions of the outer block arguments, outer yield as positions of the inner
+    results, outer upper bound, outer step, inner trip count).  Two carried values: every map {0,1}→{0,1} (the two
+    permutations and the two duplications) × both yield orders; three: every permutation × identity / rotation."""
+    cases = []
+    for ini in itertools.product(range(2), repeat=2):
+        for out in itertools.permutations(range(2)):
+            for oub, ost in ((1, 1), (2, 1), (3, 1), (3, 2)):
+                for itr in ((0, 1, 2) if full else (0, 2)):
+                    cases.append((ini, out, oub, ost, itr))
+    inis3 = list(itertools.permutations(range(3))) + ([(0, 0, 1), (2, 1, 2)] if full else [])
+    for ini in inis3:
+        for out in ((0, 1, 2), (1, 2, 0)) + (((2, 1, 0),) if full else ()):
+            for oub, ost, itr in (((2, 1, 1), (3, 1, 2), (3, 2, 1)) if full else ((2, 1, 1), (3, 1, 2))):
+                cases.append((ini, out, oub, ost, itr))
+    return cases
+
+
+def nest_iter_program(ini: tuple[int, ...], out: tuple[int, ...], oub: int, ost: int, itr: int) -> dict[str, Any]:
+    """Perfect 2-deep `scf.for` nest carrying k values, induction variables unused, constant bounds: the inner loop
+    is initialised with the outer block arguments at positions `ini`, the outer loop yields the inner results at
+    positions `out`, the inner body treats every carried value differently (add / multiply / subtract-from) and shows
+    the first one to an external call.  Only `ini` = `out` = identity is a nest a single loop can stand for."""
+    k = len(ini)
+    tys = ", ".join(["index"] * k)
+    args = ["%a", "%b", "%d"][:k]
+    L = ["  %c0 = arith.constant 0 : index", "  %c1 = arith.constant 1 : index", "  %c2 = arith.constant 2 : index",
+         "  %c7 = arith.constant 7 : index", f"  %ou = arith.constant {oub} : index", f"  %os = arith.constant {ost} : index",
+         f"  %iu = arith.constant {itr} : index"]
+    rs = ", ".join(f"%r{j}" for j in range(k))
+    L.append(f"  {rs} = scf.for %o = %c0 to %ou step %os iter_args("
+             + ", ".join(f"%p{j} = {args[j]}" for j in range(k)) + f") -> ({tys}) {{")
+    qs = ", ".join(f"%q{j}" for j in range(k))
+    L.append(f"    {qs} = scf.for %i = %c0 to %iu step %c1 iter_args("
+             + ", ".join(f"%x{j} = %p{ini[j]}" for j in range(k)) + f") -> ({tys}) {{")
+    L.append("      func.call @ext_index(%x0) : (index) -> ()")
+    body = ["arith.addi %x0, %c1", "arith.muli %x1, %c2", "arith.subi %c7, %x2"]
+    for j in range(k):
+        L.append(f"      %y{j} = {body[j]} : index")
+    L.append("      scf.yield " + ", ".join(f"%y{j}" for j in range(k)) + f" : {tys}")
+    L.append("    }")
+    L.append("    scf.yield " + ", ".join(f"%q{out[j]}" for j in range(k)) + f" : {tys}")
+    L.append("  }")
+    sig = ", ".join(f"{a}: index" for a in args)
+    text = (f"builtin.module {{\nfunc.func @main({sig}) -> ({tys}) {{\n" + "\n".join(L)
+            + f"\n  func.return {rs} : {tys}\n}}\nfunc.func private @ext_index(index) -> ()\n}}\n")
+    return {"text": text, "arg_types": ["index"] * k, "ret_types": ["index"] * k,
+            "vecs": [[1, 100, 10][:k], [-4, 9, 3][:k], [0, 5, 5][:k]]}
